@@ -272,7 +272,11 @@ def expected(row):
     if not reject and v >= [3] and not row["with_type"]:
         return {"reject": None}          # v3 without a type: not covered by the statement (recorded only)
     return {"reject": reject, "step_args": 2 if v < [3] else 3, "setup_done": v >= [2, 2],
-            "time_resolution": (not forced_old) if row["kind"] != "remote_raw" else True}
+            # an old-style simulator whose init *can* take time_resolution (StubInitOnly) may or may not receive it: the
+            # statement only forbids passing it to an init that cannot take it (StubV2, StubStepOnly, StubV2ChildOfV3:
+            # passing it there makes start() fail, which is reported as rejected_valid)
+            "time_resolution": (None if row["kind"] == "inproc_init_only" else
+                                ((not forced_old) if row["kind"] != "remote_raw" else True))}
 
 
 def check_row(row, ref_seq):
@@ -311,7 +315,7 @@ def check_row(row, ref_seq):
                              f"{row}: setup_done received={got_setup}, expected {exp['setup_done']}", case))
     init = [r for r in reqs if r[1] == "init"][0]
     got_tr = init[2].get("time_resolution", "MISSING") != "MISSING"
-    if got_tr != exp["time_resolution"]:
+    if exp["time_resolution"] is not None and got_tr != exp["time_resolution"]:
         fails.append(Failure("C15.time_resolution", f"C15.time_resolution|{shape}",
                              f"{row}: init received time_resolution={got_tr}, expected {exp['time_resolution']}", case))
     if not row["with_type"] and res.get("type") != "time-based":
